@@ -309,3 +309,20 @@ def _merge_lits(parts):
         else:
             out.append((k, v))
     return out
+
+
+def bound_args(call, params):
+    """argument expressions of `call` in the order of the callee's parameter names `params` (positional ones first, keywords
+    by name); None for a parameter that gets no explicit argument, or the whole result None for *args / **kwargs calls"""
+    if any(isinstance(a, ast.Starred) for a in call.args) or any(k.arg is None for k in call.keywords):
+        return None
+    out = [None] * len(params)
+    for i, a in enumerate(call.args):
+        if i >= len(params):
+            return None
+        out[i] = a
+    for k in call.keywords:
+        if k.arg not in params:
+            return None
+        out[params.index(k.arg)] = k.value
+    return out
